@@ -214,6 +214,15 @@ func (r *MultiplyReceiver) Round2(msg *MultiplySendRound1Message) (curve.Scalar,
 	chi0 := sample.Scalar(digest, r.group)
 	chi1 := sample.Scalar(digest, r.group)
 
+	if msg.UCheck == nil || len(msg.RCheck) != len(result) {
+		return nil, errors.New("multiply receive round 2: malformed integrity check")
+	}
+	for _, rCheck := range msg.RCheck {
+		if rCheck == nil {
+			return nil, errors.New("multiply receive round 2: malformed integrity check")
+		}
+	}
+
 	mul := r.group.NewScalar()
 	checkLeft := r.group.NewScalar()
 	checkRight := r.group.NewScalar()
